@@ -220,6 +220,10 @@ pub struct FuncDecl
 	pub body: Vec<Stmt>,
 	pub ret_expr: Option<Expr>,
 	pub public: bool,
+	/// `extern`: C ABI
+	pub external: bool,
+	/// declaration without a body (`fn f(..);`)
+	pub head_only: bool,
 }
 
 #[derive(Debug, Clone, Copy, PartialEq, Eq, Hash)]
@@ -676,7 +680,11 @@ impl<'a, 'c> Printer<'a, 'c>
 
 	fn function(&mut self, f: &FuncDecl)
 	{
-		let p = if f.public { "pub " } else { "" };
+		let p = format!(
+			"{}{}",
+			if f.public { "pub " } else { "" },
+			if f.external { "extern " } else { "" }
+		);
 		let params: Vec<String> =
 			f.params.iter().map(|p| format!("{}: {}", p.name, self.ty(&p.ty))).collect();
 		let ret = match f.ret
@@ -684,6 +692,11 @@ impl<'a, 'c> Printer<'a, 'c>
 			Some(r) => format!(" -> {}", r.name()),
 			None => String::new(),
 		};
+		if f.head_only
+		{
+			self.line(&format!("{}fn {}({}){};", p, f.name, params.join(", "), ret));
+			return;
+		}
 		self.open(&format!("{}fn {}({}){}", p, f.name, params.join(", "), ret));
 		self.stmts(&f.body);
 		if let Some(e) = &f.ret_expr
